@@ -601,6 +601,7 @@ class SymtableCodeGen(AbstractCodeGen):
         self._symsOrder = []
         self._postponedSyms.clear()
         self._moduleRevision = None
+        self.fakeidx = type(self).fakeidx
         self._importMap.clear()
         self._out = {}  # should be new object, do not use `clear` method
         self.moduleName[0], moduleOid, imports, declarations = ast
